@@ -1,4 +1,113 @@
-/- Line protocol of C05: placeholder until the model of this property is built. -/
+import BertE.Model.Queue
+import BertE.Model.QueueSpec
+/- Line protocol of C05 (queue evaluation).
+
+   `C05 <force> <queues> <paths> <statuses>`
+     force     0 | 1
+     queues    `ver=pr,pr,...;ver=...`  versions dotted (`5.1`, `5.1.5`, `4.2.17.1`) in the order of `_queues`,
+               pull request ids newest first (may be empty); `-` for no queue at all
+     paths     `ver,ver,...|ver,...`   ; `-` for none
+     statuses  per version of `queues`, in order and separated by `;`, one letter per entry of its list:
+               S(UCCESSFUL) I(NPROGRESS) N(OTSTARTED) T (STOPPED) F(AILED); `-` when there is no queue
+   answer     `prs=<ids> heads=<per version: id or -> wf=<0|1> spec=<ids> sheads=<per version>`
+              (model result, well-formedness of the input, result of the declarative specification)
+
+   `C05 search <force> <queues> <paths>` enumerates every {S,F} assignment to the entries in the model and
+   compares `process` with `Spec.select`:  answer `checked=<n> bad=<k> first=<statuses of the first bad one or ->`. -/
 namespace BertE.Drv.C05
-def handle (_args : List String) : String := "bad-op"
+open BertE.Queue
+
+def parseVersion (s : String) : Option Version := (s.splitOn ".").mapM String.toNat?
+
+def parseNats (s : String) : Option (List Nat) :=
+  if s == "" then some [] else (s.splitOn ",").mapM String.toNat?
+
+def parseQueues (s : String) : Option Queues :=
+  if s == "-" then some [] else
+  (s.splitOn ";").mapM fun item =>
+    match item.splitOn "=" with
+    | [v, l] => do
+      let v ← parseVersion v
+      let l ← parseNats l
+      pure (v, l)
+    | _ => none
+
+def parsePaths (s : String) : Option (List (List Version)) :=
+  if s == "-" then some [] else
+  (s.splitOn "|").mapM fun p => (p.splitOn ",").mapM parseVersion
+
+def statusOfChar : Char → Option Status
+  | 'S' => some .successful
+  | 'I' => some .inProgress
+  | 'N' => some .notStarted
+  | 'T' => some .stopped
+  | 'F' => some .failed
+  | _ => none
+
+def Status.letter : Status → String
+  | .successful => "S" | .inProgress => "I" | .notStarted => "N" | .stopped => "T" | .failed => "F"
+
+/-- the status table: ((pr, version), status) for every entry of every list -/
+def parseStatuses (q : Queues) (s : String) : Option (List ((Nat × Version) × Status)) :=
+  let parts := if s == "-" then [] else s.splitOn ";"
+  if parts.length != q.length then none else
+  (q.zip parts).foldlM (fun acc (e, letters) =>
+    let cs := letters.toList
+    if cs.length != e.2.length then none else do
+      let sts ← cs.mapM statusOfChar
+      pure (acc ++ (e.2.zip sts).map fun (p, s) => ((p, e.1), s))) []
+
+/-- statuses of commits nobody asks about are NOTSTARTED -/
+def stOf (tbl : List ((Nat × Version) × Status)) : St := fun p v =>
+  match tbl.find? fun x => x.1.1 == p && x.1.2 == v with
+  | some x => x.2
+  | none => .notStarted
+
+def showNats (l : List Nat) : String := ",".intercalate (l.map toString)
+
+def showHeads (q : Queues) (h : Version → Option Nat) : String :=
+  ",".intercalate (q.map fun e => match h e.1 with | some p => toString p | none => "-")
+
+def answer (q : Queues) (paths : List (List Version)) (st : St) (force : Bool) : String :=
+  let r := process st q paths force
+  let s := Spec.select q st force
+  let wf := if decide (WFQ q paths) then "1" else "0"
+  s!"prs={showNats r.prs} heads={showHeads q r.head} wf={wf} spec={showNats s.1} sheads={showHeads q s.2}"
+
+/-- all {S,F} tables over the entries -/
+def allTables : List (Nat × Version) → List (List ((Nat × Version) × Status))
+  | [] => [[]]
+  | c :: rest =>
+    let sub := allTables rest
+    (sub.map fun t => (c, Status.successful) :: t) ++ (sub.map fun t => (c, Status.failed) :: t)
+
+def agrees (q : Queues) (paths : List (List Version)) (st : St) (force : Bool) : Bool :=
+  let r := process st q paths force
+  let s := Spec.select q st force
+  r.prs == s.1 && q.all fun e => r.head e.1 == s.2 e.1
+
+def search (q : Queues) (paths : List (List Version)) (force : Bool) : String :=
+  let cells : List (Nat × Version) := q.flatMap fun (e : Version × List Nat) => e.2.map fun p => (p, e.1)
+  let bad := (allTables cells).filter fun t => !agrees q paths (stOf t) force
+  let first := match bad with
+    | [] => "-"
+    | t :: _ => ";".intercalate (q.map fun (e : Version × List Nat) =>
+        String.join (e.2.map fun p => Status.letter (stOf t p e.1)))
+  s!"checked={2 ^ cells.length} bad={bad.length} first={first}"
+
+def handle (args : List String) : String :=
+  match args with
+  | ["search", f, qs, ps] =>
+    match parseQueues qs, parsePaths ps with
+    | some q, some paths => search q paths (f == "1")
+    | _, _ => "bad-op"
+  | [f, qs, ps, ss] =>
+    match parseQueues qs, parsePaths ps with
+    | some q, some paths =>
+      match parseStatuses q ss with
+      | some tbl => answer q paths (stOf tbl) (f == "1")
+      | none => "bad-op"
+    | _, _ => "bad-op"
+  | _ => "bad-op"
+
 end BertE.Drv.C05
